@@ -261,10 +261,17 @@ fn dump_bodies<'tcx>(tcx: TyCtxt<'tcx>, out: &mut String) {
     for ldid in tcx.mir_keys(()) {
         let did = ldid.to_def_id();
         let kind = tcx.def_kind(did);
-        if !matches!(kind, DefKind::Fn | DefKind::AssocFn | DefKind::Closure) {
+        // generic constants (associated constants over const parameters) cannot be evaluated here: their initialiser is dumped as a
+        // body of its own, so that the rules can read the expression (e.g. MAX_LEN_IN_STR over S1, S2)
+        let is_generic_const = matches!(kind, DefKind::AssocConst { .. } | DefKind::Const { .. })
+            && tcx.generics_of(did).requires_monomorphization(tcx)
+            && !(matches!(kind, DefKind::AssocConst { .. })
+                && tcx.opt_parent(did).map_or(false, |p| matches!(tcx.def_kind(p), DefKind::Trait))
+                && !tcx.defaultness(did).has_value());
+        if !matches!(kind, DefKind::Fn | DefKind::AssocFn | DefKind::Closure) && !is_generic_const {
             continue;
         }
-        let body = tcx.optimized_mir(did);
+        let body = if is_generic_const { tcx.mir_for_ctfe(did) } else { tcx.optimized_mir(did) };
         let cx = Cx { tcx, did };
         if !first_fn {
             out.push_str(",\n");
@@ -273,8 +280,11 @@ fn dump_bodies<'tcx>(tcx: TyCtxt<'tcx>, out: &mut String) {
         let is_closure = matches!(kind, DefKind::Closure);
         let exported = ev.is_exported(*ldid);
         let reachable = ev.is_reachable(*ldid);
-        let is_unsafe =
-            if is_closure { false } else { tcx.fn_sig(did).skip_binder().safety().is_unsafe() };
+        let is_unsafe = if is_closure || is_generic_const {
+            false
+        } else {
+            tcx.fn_sig(did).skip_binder().safety().is_unsafe()
+        };
         // impl / trait context
         let mut impl_trait = String::new();
         let mut impl_self = String::new();
